@@ -371,3 +371,20 @@ def exprs_deep():
                 out.append(bin_("+", I(1), bin_(op1, l, bin_("*", I(1), X))))
                 out.append(bin_(op1, l, bin_("-", I(50), X)))
     return out
+
+
+def enum_sessions(slice_k, slice_n, first_id=1, ck=None):
+    """the expression x context product enumerated by TLC from CalcEnum.tla (TLC is the enumerator; CalcSem the judge)"""
+    import json
+    import vlib
+    cfg = "SPECIFICATION Spec\nCONSTANT SliceK = %d\nCONSTANT SliceN = %d\nINVARIANT TableOK\nCHECK_DEADLOCK FALSE\n" % (slice_k % slice_n, slice_n)
+    r = vlib.run_tlc("CalcEnum", "CalcEnumRun.cfg", files={"CalcEnumRun.cfg": cfg}, timeout=1800)
+    if r.violation:
+        raise vlib.Infra("CalcEnum.tla: " + r.violation)
+    if ck is not None:
+        ck.add_tlc(r, "CalcEnum.tla: enumeration of expressions x contexts")
+    out = []
+    rows = sorted((json.loads(l[8:]) for l in r.lines if l.startswith("SESSION ")), key=lambda d: (d["e"], d["ctx"]))
+    for i, d in enumerate(rows):
+        out.append({"id": first_id + i, "items": d["items"], "stdin": [], "meta": {"ctx": d["ctx"], "e": d["e"], "enumerated_by": "TLC"}})
+    return out
